@@ -156,14 +156,14 @@ def through_file(props, volts):
 
 
 def check(kind, cfg, xs, volts, make, props, res):
-    """feed volts to the class and to a file; compare with xs"""
+    """feed volts to the (already constructed) scaling object and to a file; compare with xs"""
     for via in ('class', 'file'):
         if via == 'file' and len(xs) > 400:
             xs_, volts_ = xs[::max(1, len(xs) // 200)], volts[::max(1, len(xs) // 200)]
         else:
             xs_, volts_ = xs, volts
         if via == 'class':
-            r = H.guarded(lambda: make().scale(np.array(volts_, dtype=np.float64)))
+            r = H.guarded(lambda: make.scale(np.array(volts_, dtype=np.float64)))
         else:
             r = H.guarded(lambda: through_file(props, list(volts_)))
         res['counters']['points'] += len(xs_)
@@ -202,6 +202,7 @@ def run_part(item):
     part, sub, tier = item
     from nptdms import scaling as S
     res = {'counters': {'points': 0, 'configs': 0}, 'violations': [], 'seen': set(), 'samples': []}
+    pending = []   # every scaling object of the part is constructed first and used afterwards (objects must not share state)
     if part == 'rtd':
         wiring = sub
         step = 0.5 if tier == 'thorough' else 2.5
@@ -212,8 +213,8 @@ def run_part(item):
             k = lead_factor('current', wiring)
             volts = [I * (rtd_resistance(T, r0, a, b, c) + k * rl) for T in Ts]
             cfg = {'wiring': wiring, 'rl': rl, 'r0': r0, 'a': a, 'I': I}
-            check('RTD', cfg, Ts, volts, lambda: S.RtdScaling(I, r0, a, b, c, rl, wiring, 0xFFFFFFFF),
-                  rtd_props(I, r0, a, b, c, rl, wiring), res)
+            pending.append(('RTD', cfg, Ts, volts, S.RtdScaling(I, r0, a, b, c, rl, wiring, 0xFFFFFFFF),
+                            rtd_props(I, r0, a, b, c, rl, wiring)))
         res['samples'].append({'sensor': 'RTD', 'wiring': wiring, 'temperatures': len(Ts)})
     elif part == 'thermistor':
         exc, wiring = sub
@@ -229,9 +230,9 @@ def run_part(item):
                 volts.append(val * r if exc == 'current' else val * r / (r1 + r))
             xs = [Tk - off for Tk in Tks]
             cfg = {'exc': exc, 'wiring': wiring, 'rl': rl, 'r1': r1, 'off': off}
-            check('Thermistor', cfg, xs, volts,
-                  lambda: S.ThermistorScaling(10134 if exc == 'current' else 10322, val, wiring, r1, rl, a, b, c, off, 0xFFFFFFFF),
-                  thermistor_props(exc, val, wiring, r1, rl, a, b, c, off), res)
+            pending.append(('Thermistor', cfg, xs, volts,
+                            S.ThermistorScaling(10134 if exc == 'current' else 10322, val, wiring, r1, rl, a, b, c, off, 0xFFFFFFFF),
+                            thermistor_props(exc, val, wiring, r1, rl, a, b, c, off)))
         res['samples'].append({'sensor': 'Thermistor', 'excitation': exc, 'wiring': wiring})
     elif part == 'strain':
         conf = sub
@@ -243,8 +244,8 @@ def run_part(item):
             lead_ratio = (rl / rg) if conf in (10188, 10189, 10271, 10272) else 0.0
             volts = [vinit + vex * bridge_vr(conf, e / gain, gf, nu, lead_ratio) for e in eps_grid]
             cfg = {'conf': conf, 'nu': nu, 'gf': gf, 'rg': rg, 'rl': rl, 'vinit': vinit, 'gain': gain, 'vex': vex}
-            check('Strain', cfg, eps_grid, volts, lambda: S.StrainScaling(conf, nu, rg, rl, vinit, gf, gain, vex, 0xFFFFFFFF),
-                  strain_props(conf, nu, rg, rl, vinit, gf, gain, vex), res)
+            pending.append(('Strain', cfg, eps_grid, volts, S.StrainScaling(conf, nu, rg, rl, vinit, gf, gain, vex, 0xFFFFFFFF),
+                            strain_props(conf, nu, rg, rl, vinit, gf, gain, vex)))
         res['samples'].append({'sensor': 'Strain', 'configuration': conf, 'strains': len(eps_grid)})
     elif part == 'polytable':
         xs = [-3.0, -1.0, -0.25, 0.0, 0.1, 0.5, 1.0, 2.0, 6.0, 7.5, 1e3]
@@ -255,6 +256,15 @@ def run_part(item):
             res['counters']['configs'] += 1
             if r[0] != 'ok' or any(not close(float(g), e) for g, e in zip(r[1], exp)):
                 _bad(res, 'Polynomial', {'coef': coef}, 'class', exp, repr(r)[:200], 'not-horner')
+        for coef in ([1.0, 0.5, -0.25, 0.125, 0.0, 0.01, -0.002, 3e-4, 4e-5, -5e-6, 6e-7, 7e-8], [0.0] * 10 + [1.0], [2.0, 1.0]):
+            spec = {'type': 'Polynomial', 'coef': coef, 'src': None}
+            xs12 = [-1.5, -0.5, 0.0, 0.25, 1.0, 2.0]
+            exp = R.eval_scale(spec, lambda s_: xs12)
+            r = H.guarded(lambda: through_file(R.props_for([spec]), xs12))
+            res['counters']['points'] += len(xs12)
+            res['counters']['configs'] += 1
+            if r[0] != 'ok' or any(not close(float(g), e) for g, e in zip(r[1], exp)):
+                _bad(res, 'Polynomial', {'ncoef': len(coef)}, 'file', exp, repr(r)[:200], 'not-horner')
         for pre, sc in (([10.0, 20.0, 40.0], [0.0, 2.0, 6.0]), ([40.0, 20.0, 10.0], [6.0, 2.0, 0.0]), ([-1.0, 1.0], [1.0, 4.0]),
                         ([0.0, 1.0, 0.0, 1.0], [0.0, 1.0, 2.0, 3.0])):
             exp = R.eval_scale({'type': 'Table', 'pre': pre, 'scaled': sc, 'src': None}, lambda s: xs)
@@ -263,6 +273,8 @@ def run_part(item):
             res['counters']['configs'] += 1
             if r[0] != 'ok' or any(not close(float(g), e) for g, e in zip(r[1], exp)):
                 _bad(res, 'Table', {'pre': pre, 'scaled': sc}, 'class', exp, repr(r)[:200], 'not-interpolation')
+    for (kind_, cfg_, xs_, volts_, inst_, props_) in pending:
+        check(kind_, cfg_, xs_, volts_, inst_, props_, res)
     del res['seen']
     return res
 
